@@ -38,6 +38,14 @@ let () = iter_lines (fun line ->
     | ["dt"; l; h] -> hex_of_bytes (dtline (bytes_of_hex l) (bytes_of_hex h))
     | ["rp"; s] -> hex_of_bytes (rpline (bytes_of_hex s))
     | ["uf"; s; d] -> hex_of_bytes (ufline (bytes_of_hex s) (bytes_of_hex d))
+    | ["fws"; snd; loc; host; dash; ext; o1; o2] ->
+        (* forward sender: o1/o2 = state of the -owner / -owner-default file: a absent, t temporary error, e exists *)
+        let st_of = function "e" -> OExists | "t" -> OTemp | _ -> OAbsent in
+        let d = bytes_of_hex dash and e = bytes_of_hex ext in
+        let f1 = owner_file d e s_owner and f2 = owner_file d e s_owner_default in
+        let st name = if name = f2 then st_of o2 else if name = f1 then st_of o1 else OAbsent in
+        (match forward_sender (bytes_of_hex snd) (bytes_of_hex loc) (bytes_of_hex host) d e st with
+         | None -> "D" | Some s -> "S " ^ hex_of_bytes s)
     | ["loop"; h; d] -> b01 (looping (lst bytes_of_hex h) (bytes_of_hex d))
     | _ -> "?" in
   print_string out; print_char '\n')
